@@ -40,7 +40,9 @@ def service_file(rng, name, argdump, out):
         lines.pop(rng.randrange(3))                                      # a key missing
     elif r < 0.16:
         k = rng.randrange(3)
-        lines.insert(k + 1, (lines[k][0], rng.choice([b'second', lines[k][1] + b'x'])))    # duplicate key: first wins
+        # duplicate key: first wins (the lines may be shuffled below, so either may come first: a variant of the Exec line
+        # keeps the output path intact -- an extra argument, not a longer path -- or the recorder would miss the run)
+        lines.insert(k + 1, (lines[k][0], rng.choice([b'second', lines[k][1] + (b' x' if lines[k][0] == b'Exec' else b'x')])))
     elif r < 0.2:
         k = rng.randrange(3)
         lines.insert(k, (lines[k][0] + b'[de]', b'localised'))           # Key[locale] lines are ignored
